@@ -291,8 +291,8 @@ fn test_parse_http_status() {
     );
 }
 
-fn parse_number(input: &str) -> u64 {
-    input.parse().expect("should be an unsigned integer")
+fn parse_number(input: &str) -> Option<u64> {
+    input.parse().ok()
 }
 
 fn parse_quoted_string(input: &str) -> &str {
@@ -330,7 +330,15 @@ pub fn tokenize(loc: Locator, input: &str) -> (Option<TokenList<Token>>, Vec<Par
             Ok(kind) => {
                 let slice = &input[range.clone()];
                 let value = match kind {
-                    TokenKind::LiteralNumber => TokenValue::Number(parse_number(slice)),
+                    TokenKind::LiteralNumber => match parse_number(slice) {
+                        Some(number) => TokenValue::Number(number),
+                        None => {
+                            // The literal does not fit the number type.
+                            let span = Span::new(loc.clone(), range);
+                            errors.push(ParserError::new(span));
+                            continue;
+                        }
+                    },
                     TokenKind::LiteralString => {
                         TokenValue::Symbol(list.register(parse_quoted_string(slice)))
                     }
